@@ -17,22 +17,30 @@ import scen_dm14
 SHAPES = [(k, s, n) for k in ("read", "write") for s in (False, True) for n in (3, 20)]
 
 
+ADDRSETS = [(0xF9, 0xD4, 0xE0), (0x00, 0xD4, 0xE0), (0xF9, 0xD4, 0x00), (0xFD, 0x00, 0x01)]     # client, server, intruder
+
+
 def scenarios(tier, seed):
     out = []
-    for sh in SHAPES:
-        base = gen_dm14.intruded(seed + 1, sh)
-        _, sim0 = scen_dm14.run(base)
-        nfr = sim0.nframes
-        for k in range(nfr):
-            for kind in ("other", "self"):
-                if kind == "self" and tier == "quick" and k % 2:
-                    continue
-                sa = 0xE0 if kind == "other" else 0xF9
-                sc = dict(base, intruder=[{"after_frame": k, "sa": sa, "ptr": 0x92000004, "cmd": 1}], expect_idle=(kind == "other"))
-                out.append(sc)
-            if tier != "quick" or k % 3 == 0:
-                out.append(dict(base, intruder=[{"after_frame": k, "sa": 0xE0, "ptr": 0x92000003, "cmd": 2},       # same pointer, other requester
-                                                {"after_frame": k + 2, "sa": 0xE1, "ptr": 0x92000009, "cmd": 1}]))
+    for ai, addrs in enumerate(ADDRSETS):
+        cl, sv, it = addrs
+        third = 0xE1 if 0xE1 not in addrs else 0xE2
+        for si, sh in enumerate(SHAPES):
+            if ai > 0 and tier == "quick" and (si + ai) % 4:
+                continue                                        # boundary addresses: a rotating quarter of the shapes
+            base = dict(gen_dm14.intruded(seed + 1, sh), addrs=list(addrs))
+            _, sim0 = scen_dm14.run(base)
+            nfr = sim0.nframes
+            for k in range(nfr):
+                for kind in ("other", "self"):
+                    if kind == "self" and tier == "quick" and (k % 2 or ai > 0):
+                        continue
+                    sa = it if kind == "other" else cl
+                    sc = dict(base, intruder=[{"after_frame": k, "sa": sa, "ptr": 0x92000004, "cmd": 1}], expect_idle=(kind == "other"))
+                    out.append(sc)
+                if tier != "quick" or k % 3 == 0 or ai > 0:
+                    out.append(dict(base, intruder=[{"after_frame": k, "sa": it, "ptr": 0x92000003, "cmd": 2},       # same pointer, other requester
+                                                    {"after_frame": k + 2, "sa": third, "ptr": 0x92000009, "cmd": 1}]))
     return out
 
 
@@ -40,12 +48,13 @@ def in_scope(tr):
     """the property speaks about intrusions while a transaction is in progress: from the first DM14 until the serving side
     has received the closing one.  Injection points that fall behind that are ordinary new transactions - dropped."""
     closed = None
+    cl = tr["meta"]["scenario"].get("addrs", ADDRSETS[0])[0]
     for e in tr["ev"]:
-        if e["ev"] == "pdu" and e["node"] == "S" and e["pgn"] == 0xD900 and e["sa"] == 0xF9 and len(e["data"]) == 8 and ((e["data"][1] >> 1) & 7) == 4:
+        if e["ev"] == "pdu" and e["node"] == "S" and e["pgn"] == 0xD900 and e["sa"] == cl and len(e["data"]) == 8 and ((e["data"][1] >> 1) & 7) == 4:
             closed = e["t"]
-        if e["ev"] == "pdu" and e["node"] == "S" and e["pgn"] == 0xD900 and e["sa"] != 0xF9 and closed is not None and e["t"] >= closed:
+        if e["ev"] == "pdu" and e["node"] == "S" and e["pgn"] == 0xD900 and e["sa"] != cl and closed is not None and e["t"] >= closed:
             return False
-        if e["ev"] == "pdu" and e["node"] == "S" and e["pgn"] == 0xD900 and e["sa"] == 0xF9 and closed is not None and e["t"] > closed:
+        if e["ev"] == "pdu" and e["node"] == "S" and e["pgn"] == 0xD900 and e["sa"] == cl and closed is not None and e["t"] > closed:
             return False
     return True
 
@@ -57,6 +66,7 @@ def nontrivial(tr):
 def run(chk, replay):
     chk.rule = ("8 transaction shapes x intruding DM14 after every bus frame k x {other source address, client's own address "
                 "with another pointer} + double intrusions (same pointer from another requester, then a third requester); "
+                "source addresses of client / server / intruder: typical ones and the boundary values 0x00 and 0xFD; "
                 "non-trivial = an intruding request was actually injected")
     chk.assumptions = ["the intruder is a third real stack sending a well-formed DM14 read/write request 1 us after the k-th bus frame",
                        "for an intruder using the client's own address only not-served / busy-answer are required (the busy reply "
